@@ -145,3 +145,105 @@ Proof.
   - eapply Permutation_in; eauto.
   - eapply Permutation_in; [apply Permutation_sym; exact P|exact H].
 Qed.
+
+(* ---------- the entries held (AuthEvents.Valid speaks about them) ---------- *)
+Lemma held7_incl auths x : In x (held7 auths) -> In x auths.
+Proof. unfold held7. intro H. apply filter_In in H. tauto. Qed.
+
+Lemma json_eqb_refl : forall j, json_eqb j j = true.
+Proof.
+  fix IH 1. intros [| b | r | s | l | m]; simpl; try reflexivity.
+  - destruct b; reflexivity.
+  - apply bytes_eqb_refl.
+  - apply bytes_eqb_refl.
+  - induction l as [|x l IHl]; [reflexivity|]. rewrite (IH x). exact IHl.
+  - induction m as [|[k v] m IHm]; [reflexivity|]. rewrite bytes_eqb_refl, (IH v). exact IHm.
+Qed.
+
+(* with one event per key the provider holds every state event supplied *)
+Lemma held7_distinct auths x :
+  NoDup (map key7 auths) ->
+  (In x (held7 auths) <-> In x auths /\ Abs.ev_state_key x <> None).
+Proof.
+  intro ND. unfold held7. rewrite filter_In. split.
+  - intros [Hin H]. split; [exact Hin|]. destruct (Abs.ev_state_key x); [discriminate|discriminate].
+  - intros [Hin Hs]. split; [exact Hin|].
+    destruct (Abs.ev_state_key x) as [sk|] eqn:K; [|congruence].
+    rewrite (find_auth_distinct (Abs.ev_type x) sk auths x ND Hin); [apply json_eqb_refl|].
+    unfold key7. rewrite K. reflexivity.
+Qed.
+
+Lemma valid9_permutation f st st' :
+  NoDup (map key7 st) -> Permutation st st' -> valid9 f st = valid9 f st'.
+Proof.
+  intros ND P.
+  assert (ND' : NoDup (map key7 st')) by (eapply Permutation_NoDup; [apply Permutation_map; exact P|exact ND]).
+  unfold valid9. apply one_room_same_members. intro x.
+  rewrite (held7_distinct st x ND), (held7_distinct st' x ND').
+  split; intros [H1 H2]; split; auto.
+  - eapply Permutation_in; eauto.
+  - eapply Permutation_in; [apply Permutation_sym; exact P|exact H1].
+Qed.
+
+Lemma one_room_sub f st l :
+  one_room f st = true -> (forall x, In x l -> In x st) -> one_room f l = true.
+Proof.
+  intros OR H. apply one_room_spec. rewrite one_room_spec in OR.
+  intros a b Ha Hb. apply OR; apply H; assumption.
+Qed.
+
+(* all supplied events of one room: whatever part of them is held is of one room *)
+Lemma valid9_of_one_room f st l :
+  one_room f st = true -> (forall x, In x l -> In x st) -> valid9 f l = true.
+Proof.
+  intros OR H. unfold valid9. apply (one_room_sub f st); [exact OR|].
+  intros x Hx. apply H. apply held7_incl. exact Hx.
+Qed.
+
+Lemma valid9_distinct f st :
+  NoDup (map key7 st) -> provider_ok st = true -> valid9 f st = one_room f st.
+Proof.
+  intros ND PO. unfold valid9. apply one_room_same_members. intro x.
+  rewrite (held7_distinct st x ND). split; [tauto|]. intro H. split; [exact H|].
+  unfold provider_ok in PO. rewrite forallb_forall in PO. specialize (PO x H).
+  destruct (Abs.ev_state_key x); [discriminate|discriminate].
+Qed.
+
+(* ---------- the verdict is that of the entries held ---------- *)
+Lemma find_auth_filter_winner ty sk st (keep : json -> bool) :
+  (forall w, find_auth ty sk st = Some w -> keep w = true) ->
+  find_auth ty sk (filter keep st) = find_auth ty sk st.
+Proof.
+  induction st as [|a r IH]; intro H; [reflexivity|]. simpl in *.
+  destruct (find_auth ty sk r) as [x|] eqn:F.
+  - assert (IH' : find_auth ty sk (filter keep r) = Some x) by (apply IH; intros w E; apply H; exact E).
+    destruct (keep a); simpl; rewrite IH'; reflexivity.
+  - assert (IH' : find_auth ty sk (filter keep r) = None) by (apply IH; intros w E; discriminate).
+    destruct (bytes_eqb (Abs.ev_type a) ty && state_key_is a sk) eqn:M.
+    + rewrite (H a eq_refl). simpl. rewrite IH', M. reflexivity.
+    + destruct (keep a); simpl; rewrite IH'; [rewrite M|]; reflexivity.
+Qed.
+
+Lemma find_auth_held7 ty sk st : find_auth ty sk (held7 st) = find_auth ty sk st.
+Proof.
+  unfold held7. apply find_auth_filter_winner. intros w F.
+  pose proof F as F'. apply find_auth_matches in F' as [_ M]. apply matches7_key in M.
+  unfold key7 in M. inversion M as [[E1 E2]]. rewrite E2, E1, F. apply json_eqb_refl.
+Qed.
+
+Lemma provider_ok_held7 st : provider_ok (held7 st) = true.
+Proof.
+  unfold provider_ok, held7. apply forallb_forall. intros x Hx. apply filter_In in Hx as [_ P].
+  destruct (Abs.ev_state_key x); [reflexivity|discriminate].
+Qed.
+
+Lemma held7_idem_members st x : In x (held7 (held7 st)) <-> In x (held7 st).
+Proof.
+  split; [apply held7_incl|]. intro H. unfold held7 at 1. apply filter_In. split; [exact H|].
+  unfold held7 in H. apply filter_In in H as [_ P].
+  destruct (Abs.ev_state_key x) as [sk|]; [|discriminate].
+  rewrite find_auth_held7. exact P.
+Qed.
+
+Lemma valid9_held7 f st : valid9 f (held7 st) = valid9 f st.
+Proof. unfold valid9. apply one_room_same_members. apply held7_idem_members. Qed.
